@@ -516,7 +516,7 @@ Print Assumptions C20_names.
    ==================================================================================== *)
 Require Import Blots.proofs.DisplayNumDischarge1 Blots.proofs.DisplayNumDischarge2
                Blots.proofs.DisplayNumDischarge3 Blots.proofs.DisplayNumDischarge4
-               Blots.proofs.DisplayNumDischarge5.
+               Blots.proofs.DisplayNumDischarge5 Blots.proofs.DisplayNumDischarge6.
 (* the imported proof files open R_scope; restore the scopes of this file *)
 Open Scope char_scope.
 Open Scope Z_scope.
@@ -606,6 +606,51 @@ Check C20_parse_model_close : forall t, mant14_shape t = true ->
   exists m, parse_f64_exec t = Some m /\ is_finite m = true /\
     (Qabs (num_to_Q m - denote_plain t) <= 2 # 1000000000000000)%Q.
 Print Assumptions C20_parse_model_close.
+Print Assumptions C20_names.
+
+(* ---- the remaining hypotheses of C20_wellformed_total, for the executable models: {:.14e} has the
+        documented shape -?d.d+e-?d+ on every valid finite double (zeros included) ---- *)
+Theorem C20_fmt_exp14_model_shape : forall x,
+  valid x -> is_finite x = true -> exp_shape (fmt_exp14_exec x) = true.
+Proof. exact fmt_exp14_exec_shape. Qed.
+Check C20_fmt_exp14_model_shape : forall x,
+  valid x -> is_finite x = true -> exp_shape (fmt_exp14_exec x) = true.
+Print Assumptions C20_fmt_exp14_model_shape.
+Print Assumptions C20_names.
+
+(* ---- parse::<f64> of a mantissa text -?d.d+ (any number of fraction digits) is a finite double ---- *)
+Theorem C20_parse_model_finite : forall s m,
+  mant_shape s = true -> parse_f64_exec s = Some m -> is_finite m = true.
+Proof. exact parse_f64_exec_finite. Qed.
+Check C20_parse_model_finite : forall s m,
+  mant_shape s = true -> parse_f64_exec s = Some m -> is_finite m = true.
+Print Assumptions C20_parse_model_finite.
+Print Assumptions C20_names.
+
+(* ---- powi(10, j), -2 <= j <= 21, is a finite non-zero double of magnitude 2^-80 .. 2^80 ---- *)
+Theorem C20_powi_model_bounds : forall j, -2 <= j <= 21 ->
+  exists s m e, powi_exec c_ten j = S754_finite s m e /\ valid (powi_exec c_ten j) /\
+    (bpow radix2 (-80) <= Rabs (RV (powi_exec c_ten j)) <= bpow radix2 80)%R.
+Proof. exact powi_exec_std_bounds. Qed.
+Check C20_powi_model_bounds : forall j, -2 <= j <= 21 ->
+  exists s m e, powi_exec c_ten j = S754_finite s m e /\ valid (powi_exec c_ten j) /\
+    (bpow radix2 (-80) <= Rabs (RV (powi_exec c_ten j)) <= bpow radix2 80)%R.
+Print Assumptions C20_powi_model_bounds.
+Print Assumptions C20_names.
+
+(* ---- WELL-FORMEDNESS FOR THE EXECUTABLE MODEL: every valid double (NaN, infinities, zeros, subnormals
+        included), both variants of the code, is displayed as a well-formed numeral by
+        format_display_number running on the executable library models.  Only hypothesis: log10_sane. ---- *)
+Theorem C20_wellformed_exec : forall log10 fx, log10_sane log10 ->
+  forall x t, valid_binary 53 1024 x = true ->
+  format_display_number log10 powi_exec fmt_prec_exec fmt_exp14_exec parse_f64_exec fx x = Ok t ->
+  wf_numeral t = true.
+Proof. exact display_wellformed_exec. Qed.
+Check C20_wellformed_exec : forall log10 fx, log10_sane log10 ->
+  forall x t, valid_binary 53 1024 x = true ->
+  format_display_number log10 powi_exec fmt_prec_exec fmt_exp14_exec parse_f64_exec fx x = Ok t ->
+  wf_numeral t = true.
+Print Assumptions C20_wellformed_exec.
 Print Assumptions C20_names.
 
 (* ---- THE ACCURACY CLAUSE FOR THE EXECUTABLE MODEL (= C20_accuracy_full): for every valid finite
